@@ -10,25 +10,29 @@ import ctypes, json, sys
 lib = ctypes.CDLL(sys.argv[1])
 div = int(sys.argv[2]) if len(sys.argv) > 2 else 1
 extra = [int(x) for x in sys.argv[3:]]
-lib.probe.argtypes = [ctypes.c_char_p, ctypes.c_size_t, ctypes.c_char_p] + [ctypes.c_uint32] * len(extra)
-lib.probe.restype = ctypes.c_uint32
+import os
+entry = getattr(lib, os.environ.get("LLSYM_ENTRY", "probe"))
+entry.argtypes = [ctypes.c_char_p, ctypes.c_size_t, ctypes.c_char_p] + [ctypes.c_uint32] * len(extra)
+entry.restype = ctypes.c_uint32
 for line in sys.stdin:
     inp = bytes(json.loads(line))
     buf = ctypes.create_string_buffer(64)
     sys.stdout.write("BEGIN\n"); sys.stdout.flush()
-    code = lib.probe(inp, len(inp) // div, buf, *extra)
+    code = entry(inp, len(inp) // div, buf, *extra)
     sys.stdout.write(json.dumps({"code": code, "digest": list(buf.raw)}) + "\n"); sys.stdout.flush()
 '''
 
 
-def run_native(so, inputs, timeout_per_input=10.0, len_div=1, extra=(), each=False):
+def run_native(so, inputs, timeout_per_input=10.0, len_div=1, extra=(), each=False, entry="probe"):
     """inputs: list of bytes.  Returns list of dict(code, digest) | dict(abort=True, stderr=..) | dict(timeout=True).
     each=True: one helper process per input, each under timeout_per_input (for inputs suspected not to return)."""
+    import os
+    env = dict(os.environ, LLSYM_ENTRY=entry)
     if each:
         out = []
         for x in inputs:
             p = subprocess.Popen([sys.executable, "-c", HELPER, so, str(len_div)] + [str(v) for v in extra], stdin=subprocess.PIPE,
-                                 stdout=subprocess.PIPE, stderr=subprocess.PIPE, text=True)
+                                 stdout=subprocess.PIPE, stderr=subprocess.PIPE, text=True, env=env)
             try:
                 so_, se_ = p.communicate(json.dumps(list(x)) + "\n", timeout=timeout_per_input)
                 lines = [l for l in so_.split("\n") if l.startswith("{")]
@@ -42,7 +46,7 @@ def run_native(so, inputs, timeout_per_input=10.0, len_div=1, extra=(), each=Fal
     i = 0
     while i < len(inputs):
         p = subprocess.Popen([sys.executable, "-c", HELPER, so, str(len_div)] + [str(x) for x in extra], stdin=subprocess.PIPE, stdout=subprocess.PIPE,
-                             stderr=subprocess.PIPE, text=True)
+                             stderr=subprocess.PIPE, text=True, env=env)
         payload = "".join(json.dumps(list(x)) + "\n" for x in inputs[i:])
         try:
             so_, se_ = p.communicate(payload, timeout=max(30.0, timeout_per_input * (len(inputs) - i)))
